@@ -317,7 +317,7 @@ prop("C07",
           "filter is in its source db (or target.db) with the source value, restored exactly once, nothing else written, existing keys untouched under "
           "ignore, SCRIPT LOAD count == scripts passing filter.lua; busy key under none or an injected error => sync returns an error / restore mode "
           "aborts. Chunked: one hash of 16-40 MiB (boundaries placed around the chunk limit) restored by 2-4 workers under a generated schedule, with/without "
-          "a pre-existing key under rewrite: all fields present, none stale (known finding: the first chunk's DEL can overtake... be overtaken by a later chunk). "
+          "a pre-existing key under rewrite: all fields present, none stale (D14, repaired by 58b799a: the first chunk's DEL could be overtaken by a later chunk's fields; the regression tier replays that interleaving deterministically). "
           "Non-trivial: parallel>=2, writes in >=3 dbs over >=2 connections; chunks written over >=2 connections. Distinct = hash of (case, schedule, release order).",
      technique="property-based testing (rapid) with a generated schedule script driving a gated model target (controlled interleaving of worker connections); model-based oracle over keyspace and command log",
      level_text="Generated inputs x configurations x command-level interleavings chosen by the generator; which worker takes which entry is up to the Go runtime (observed in the log, not controlled).",
